@@ -368,6 +368,15 @@ func (c *child) run(checkpoint func()) {
 	checkpoint()
 	c.shareSample()
 	c.authenticated()
+	checkpoint()
+	// last, because a server that honours it replaces this process: POST <status>/restart
+	for _, rs := range c.table() {
+		if rs.Kind == "restart" {
+			for _, m := range []string{"none", "wrong-basic"} {
+				c.judgeUnauth(rs, m)
+			}
+		}
+	}
 }
 
 // stripKnownKeys removes jsonconfig's bookkeeping entries, which do not survive a JSON round trip.
@@ -908,6 +917,9 @@ func (c *child) unauthenticated() {
 		}
 		var items []item
 		for _, rs := range g {
+			if rs.Kind == "restart" {
+				continue // probed at the very end of the run
+			}
 			for mi, m := range modes {
 				// wrong credentials: only on GET/POST to keep the batch small
 				if mi > 0 && rs.Method != "GET" && rs.Method != "POST" {
